@@ -262,9 +262,9 @@ func runCheck(prop, tier, cfgPath, evDir, knownPath, replayDir string, verbose b
 	if kb, err := os.ReadFile(knownPath); err == nil {
 		json.Unmarshal(kb, &known)
 	}
-	timeout := 30 * time.Second
+	timeout := 60 * time.Second
 	if tier == "thorough" {
-		timeout = 120 * time.Second
+		timeout = 180 * time.Second
 	}
 	if timeoutS > 0 {
 		timeout = time.Duration(timeoutS) * time.Second
